@@ -2,7 +2,7 @@ SPECIFICATION GSpecXN
 CONSTANTS
   PRICE <- GenPriceNonPos
   QTY = {1, 2}
-  FEE = {0, 1}
+  FEE <- GenFeeRebate
   MARK = {}
   MaxFills = 99
   MaxLen = 3
